@@ -402,7 +402,7 @@ def _splice(caller, bi, callee, tag):
                 nt = {"k": "goto", "target": cont, "line": ct.get("line"), "exp": False}
         else:
             nt = _term(ct, lm, bm)
-        caller["blocks"].append({"stmts": stmts, "term": nt, "cleanup": blk["cleanup"]})
+        caller["blocks"].append({"stmts": stmts, "term": nt, "cleanup": blk["cleanup"], "spliced": tag})   # code that is new to the caller
     if fwd_stmt is not None:
         caller["blocks"][cont]["stmts"] = [s for s in caller["blocks"][cont]["stmts"] if s is not fwd_stmt]
     # bind the arguments and jump in
@@ -593,8 +593,9 @@ def _resolve_refs(body):
         if rv["k"] == "ref":
             p = rv["p"]
             root = p["l"]
-            if root > body["arg_count"] and len(defs.get(root, [])) > 1:
-                return None
+            if root > body["arg_count"] and len(defs.get(root, [])) > 1 and "*" in p["p"]:
+                return None     # a place reached through a pointer that is itself reassigned
+            # (a reference to a local, or to a field path of one, denotes that storage however often the local is assigned)
             if any(isinstance(e, dict) and "i" in e for e in p["p"]):
                 return None
             # the referenced place may itself start with a deref of another single-def reference
@@ -645,6 +646,10 @@ def _resolve_refs(body):
             t["discr"] = op_fix(t["discr"])
         elif t["k"] == "call":
             t["dest"] = resolve(t["dest"])
+            t["args"] = [op_fix(a) for a in t["args"]]
+        elif t["k"] == "assert":
+            t["cond"] = op_fix(t["cond"])
+            t["aops"] = [op_fix(a) for a in t["aops"]]
     return body
 
 
@@ -786,6 +791,40 @@ def helpers_of(facts, known):
     return cand
 
 
+# A from-scratch computation rewritten to *call* the incremental one (the key of a position built by calling the four
+# key mutators on an empty key, R2-6 / R11-2) is read as the words it XORs: these calls, which the reference tree does not
+# have, are expanded in the caller although the callees are functions of the reference tree (and stay ones).
+ZFROM_KEY = "<board::zkey::ZKey as std::convert::From<&board::Board>>::from"
+FORCED = {ZFROM_KEY: {"board::zkey::ZKey::add_or_remove_piece", "board::zkey::ZKey::change_castling_rights",
+                      "board::zkey::ZKey::change_en_passant", "board::zkey::ZKey::change_turn"}}
+
+
+def force_inline(facts):
+    bodies = {j["key"]: j for j in facts["bodies"]}
+    adts = {a["path"]: a for a in facts["adts"]}
+    log = []
+    for caller, callees in FORCED.items():
+        j = bodies.get(caller)
+        if j is None:
+            continue
+        n = 0
+        for _round in range(3):
+            for bi in range(len(j["blocks"])):
+                blk = j["blocks"][bi]
+                t = blk["term"]
+                if blk["cleanup"] or t["k"] != "call":
+                    continue
+                ck = _callee_key(t, bodies)
+                if ck in callees and len(j["blocks"]) < 3000:
+                    _splice(j, bi, bodies[ck], "%s@%s" % (ck, t.get("line")))
+                    n += 1
+        if n:
+            _fold_switches(j, adts)
+            _resolve_refs(j)
+            log.append({"helper": "(forced) the key mutators", "into": caller, "sites": n})
+    return log
+
+
 def apply(facts, known=None):
     """Expand helper calls in place.  Returns the log: list of {helper, into, sites}."""
     if known is None:
@@ -803,6 +842,7 @@ def apply(facts, known=None):
     facts["inlined"] = []
     if not helpers:
         from . import unroll, expand, pipeline
+        facts["inlined"] += force_inline(facts)
         pipeline.apply(facts)
         expand.apply(facts)
         unroll.apply(facts)
@@ -866,6 +906,7 @@ def apply(facts, known=None):
     facts["bodies"] = [j for j in facts["bodies"] if j["key"] not in gone]
     facts["inlined"] = [{"helper": h, "into": k, "sites": n} for (h, k), n in sorted(log.items())]
     facts["helpers_dropped"] = sorted(gone)
+    facts["inlined"] += force_inline(facts)
     from . import unroll, expand, pipeline
     pipeline.apply(facts)
     expand.apply(facts)
